@@ -30,6 +30,8 @@ BOUND = {
     "quick": "types x 5 decorations x 3 contexts; settings subsets <=3 x 9 column variants; text fragments len<=1 x 17 channels x ref/no-ref; L(4,3) x 3 rotations; 4 containers x catalogue slice",
     "thorough": "types x 5 decorations x 3 contexts; settings subsets <=4 x 9 column variants; text fragments len<=2 x 17 channels x ref/no-ref; L(5,3) x 3 rotations; 4 containers x catalogue",
 }
+# as-built additions to the bound (kept next to BOUND so that the evidence reports them)
+BOUND = {k: v + "; plus: " + 'settings product also with an entities sheet; element names with the 52 range-edge characters of the XML name productions (first / middle / last); 1-3 choice lists x invalid extra-column headers valued in any subset of the lists' for k, v in BOUND.items()}
 
 FRAGS = ["<", ">", "&", '"', "'", "]]>", "&amp;", "&#60;", "&lt;", "<!--", "-->", "<![CDATA[",
          '<output value="x"/>', "</label>", "{", "}", "$", "a", "é", "\U0001F600", "שלום",
